@@ -69,13 +69,13 @@ func caseRegion(info *types.Info, sw *ast.SwitchStmt, constName string) ([]ast.S
 
 // roleFuncs resolves the container's internal roles structurally (names are only hints).
 type roles struct {
-	setInstance    *FuncInfo // method of *scope with a Lifetime switch that stores into the scope cache
-	resolve        *FuncInfo // method of *scope with a Lifetime switch that calls createInstance
-	createInstance *FuncInfo // method of *scope that calls ConstructorInvoker.Invoke* (the core)
+	setInstance    *FuncInfo            // method of *scope with a Lifetime switch that stores into the scope cache
+	resolve        *FuncInfo            // method of *scope with a Lifetime switch that calls createInstance
+	createInstance *FuncInfo            // method of *scope that calls ConstructorInvoker.Invoke* (the core)
 	creators       map[*types.Func]bool // the core and the *scope wrappers through which it is reached
 	createEntry    *FuncInfo            // the member of the chain that resolve calls
 	resolveTop     *FuncInfo            // the *scope method the entry points call: registry lookup, built-ins, then the lifetime dispatch (= resolve unless that was split)
-	setSingleton   *FuncInfo // method of *provider that stores into the sync.Map
+	setSingleton   *FuncInfo            // method of *provider that stores into the sync.Map
 	getInstance    *FuncInfo
 	getSingleton   *FuncInfo
 	runInits       *FuncInfo // method of *scope ranging over the provider's initializer list
